@@ -370,9 +370,33 @@ func genRecursive(t *rapid.T) string {
 	return prog
 }
 
+// genDeep: well-formed programs that are short but deeply nested (function calls in function
+// arguments, objects in object values, both alternating): "of bounded depth" is a bound of the
+// generator, not of the language, and the time to parse must not explode with the depth.
+func genDeep(t *rapid.T) string {
+	depth := rapid.SampledFrom([]int{12, 18, 24, 32, 48, 80}).Draw(t, "nesting")
+	inner := rapid.SampledFrom([]string{"1", ".Individuals | Length", ".Name", "\"x\"", ".", "?"}).Draw(t, "inner")
+	style := rapid.IntRange(0, 3).Draw(t, "style")
+	e := inner
+	for i := 0; i < depth; i++ {
+		switch {
+		case style == 0 || (style == 2 && i%2 == 0):
+			e = rapid.SampledFrom([]string{"First", "Last", "Only", "Combine", "Length", "NodesWithTagPath"}).Draw(t, "fn") + "(" + e + ")"
+		case style == 1 || style == 2:
+			e = "{a: " + e + "}"
+		default:
+			e = "{a: 1, b: First(" + e + "), c: .Name}"
+		}
+	}
+	return rapid.SampledFrom([]string{"", ".Individuals | ", "X is .Individuals; X | "}).Draw(t, "head") + e
+}
+
 func genProgram(t *rapid.T) string {
-	if rapid.IntRange(0, 9).Draw(t, "recursive") == 0 {
+	switch rapid.IntRange(0, 39).Draw(t, "special") {
+	case 11, 12, 13, 14:
 		return genRecursive(t)
+	case 21:
+		return genDeep(t)
 	}
 	n := rapid.IntRange(1, 3).Draw(t, "statements")
 	var st []string
@@ -389,7 +413,7 @@ func genProgram(t *rapid.T) string {
 func TestCheckGrammar(t *testing.T) {
 	reflected = collectAccessors()
 	s := harness.NewSub("grammar-programs",
-		fmt.Sprintf("well-formed programs from the documented grammar (1..3 statements, pipelines of 1..4 stages, nesting depth <= 4): accessors drawn from the %d method and field names reachable by reflection from *Document (so arity-mismatched, mutating and no-result methods are included), the built-in functions with 0..3 arbitrary arguments, objects, variables incl. self-referential and undefined ones (a tenth of the programs are built around a variable that refers to itself, directly or through another one, from inside a function argument, object or operator over a list rooted at the document), all six operators, hostile constants; on the empty, tiny and family documents and with two documents; non-trivial = the program parses", len(reflected)))
+		fmt.Sprintf("well-formed programs from the documented grammar (1..3 statements, pipelines of 1..4 stages, nesting depth <= 4): accessors drawn from the %d method and field names reachable by reflection from *Document (so arity-mismatched, mutating and no-result methods are included), the built-in functions with 0..3 arbitrary arguments, objects, variables incl. self-referential and undefined ones (a tenth of the programs are built around a variable that refers to itself, directly or through another one, from inside a function argument, object or operator over a list rooted at the document), all six operators, hostile constants; one program in forty is short but nested 12 to 80 levels deep (calls in arguments, objects in values); on the empty, tiny and family documents and with two documents; non-trivial = the program parses", len(reflected)))
 	s.Rapid(t, harness.Share(harness.Pick(300000, 4000000)), 150, func(rt *rapid.T) {
 		c := queryCase{Query: genProgram(rt), Doc: rapid.SampledFrom([]string{"empty", "tiny", "family", "family", "two"}).Draw(rt, "doc")}
 		runOne(s, c, true)
